@@ -267,6 +267,8 @@ func (vm *VM) runPath(entry *ssa.Function, prefix []int32) {
 	vm.depth = 0
 	vm.cur = nil
 	vm.resetModels()
+	vm.afterFuncs = map[*Object][]*afterFuncRec{}
+	vm.watch = nil
 	vm.solver.BeginPath()
 	reason := "complete"
 	func() {
